@@ -813,6 +813,13 @@ def install(ctx, enabled, mode="raise", k_relabel=2, seed=0):
     S.orig = {}
     for name, modname in TARGETS.items():
         S.orig[name] = getattr(importlib.import_module(modname), name)
+    if ctx is not None and getattr(ctx, "shard", 0) % 4 == 3 and mode == "raise":
+        # a host application's logging configuration is process state too: a quarter of the shards run with DEBUG logging switched on
+        import logging
+        logging.getLogger().setLevel(logging.DEBUG)
+        if not logging.getLogger().handlers:
+            logging.getLogger().addHandler(logging.NullHandler())
+        ctx.count("cov_debug_logging_enabled")
     K.load()
     S.lib_keys = {K.PARTITION, K.INVARIANT_CODE} | _calibrate_library_keys()
     S.scratch_keys = {K.EXPLORED} | _calibrate_scratch_keys()
